@@ -18,6 +18,7 @@ type FuncResult struct {
 	Havocs   []string
 	Inlined  []string
 	UsedCon  []string
+	EngineAssumed []string // modelling assumptions made by the engine while executing this function
 	Ctx      *Ctx
 	Err      string // broken: contract error etc.
 	Secs     float64
@@ -221,6 +222,10 @@ func (e *Engine) buildVCy(key string, con *Contract, excl map[string]bool, force
 	res.Havocs = x.Havocs
 	res.Inlined = sortedKeys(x.Inlined)
 	res.UsedCon = sortedKeys(x.UsedCon)
+	res.EngineAssumed = sortedKeys(x.Assumed)
+	if len(x.okCache) > 0 {
+		res.EngineAssumed = append(res.EngineAssumed, "entry-stable spec functions (;;@estable) read only heap cells reachable from their arguments; evaluated on the entry heap once the heap-agreement side conditions (obligations of kind 'stable') are discharged")
+	}
 	return
 }
 
